@@ -386,6 +386,35 @@ func preludeD(w *lineWriter, m Mix) {
 	w.add("\treturn g")
 	w.add("}")
 	w.add("")
+	w.add("// hid is UNEXPORTED and annotated like GT; other packages reach it through GetHid, DefaultHid, WHid (embedding),")
+	w.add("// HidAlias (an exported alias) and HidList (an exported container).")
+	if m.Imm {
+		w.add("// @immutable")
+	}
+	if m.Ctor > 0 {
+		w.add("// @constructor newHid")
+	}
+	w.add("type hid struct {")
+	w.add("\tF int")
+	if m.Mut {
+		w.add("\t// @mutable")
+	}
+	w.add("\tM  int")
+	w.add("\tXs []int")
+	w.add("}")
+	w.add("")
+	w.add("func newHid() *hid { return &hid{} }")
+	w.add("")
+	w.add("var DefaultHid = newHid()")
+	w.add("")
+	w.add("func GetHid() *hid { return DefaultHid }")
+	w.add("")
+	w.add("type WHid struct{ hid }")
+	w.add("")
+	w.add("type HidAlias = hid")
+	w.add("")
+	w.add("type HidList []hid")
+	w.add("")
 	w.add("// WT and WPT embed T (by value / by pointer): T's fields are promoted; WTw embeds the unannotated twin.")
 	w.add("type WT struct{ T }")
 	w.add("")
@@ -609,7 +638,7 @@ func (r *renderer) wptName() string {
 func (r *renderer) subst(stmt string) string {
 	r.ctr++
 	rep := strings.NewReplacer("{TL}", r.tLit, "{T}", r.tName, "{PT}", r.ptName, "{P}", r.pName, "{O}", r.oName, "{N}", r.nName,
-		"{GetP}", r.q+"GetP", "{Env}", r.q+"Env", "{T2}", r.q+"T2", "{U2}", r.q+"U2", "{GT}", r.q+"GT", "{NewGT}", r.q+"NewGT", "{WT}", r.q+"WT", "$v", fmt.Sprintf("v%d", r.ctr))
+		"{GetP}", r.q+"GetP", "{Env}", r.q+"Env", "{T2}", r.q+"T2", "{U2}", r.q+"U2", "{GT}", r.q+"GT", "{NewGT}", r.q+"NewGT", "{WT}", r.q+"WT", "{q}", r.q, "$v", fmt.Sprintf("v%d", r.ctr))
 	return rep.Replace(stmt)
 }
 
